@@ -89,6 +89,7 @@ Record pq_tables : Type := {
   pq_rbranches : list (list string * pq_shape);
   pq_restores_width : bool;         (* the reader computes n_allocated from the Allocate instructions and returns a circuit
                                        of that width when it is larger than what the gates need *)
+  pq_w_single_target : list string; (* writer kinds whose branch starts with  if len(gate.target) != 1: raise ValueError *)
   pq_w_single_ctrl : list string;   (* writer kinds whose branch starts with  if len(gate.control) != 1: raise ValueError *)
   pq_ignored : list string          (* literals of the two re.sub(...) that delete whole instructions *)
 }.
@@ -238,8 +239,10 @@ Section Formats.
   Definition hd_err (l : list Z) : res Z := match l with x :: _ => Ok x | [] => Err IndexError end.
 
   (* one iteration of the gate loop of translate_c_to_projectq (f-string fields left to right) *)
-  (* the guard  if len(gate.control) != 1: raise ValueError  at the top of a branch (before the f-string) *)
+  (* the guards  if len(gate.target) != 1: raise ValueError  and  if len(gate.control) != 1: raise ValueError
+     at the top of a branch (before the f-string), in this order *)
   Definition pq_guard (g : pgate) : res unit :=
+    do _ <- (if smem (pname g) (pq_w_single_target P) && negb (Nat.eqb (length (ptarget g)) 1) then Err ValueError else Ok tt);
     if smem (pname g) (pq_w_single_ctrl P) then
       match pcontrol g with
       | None => Err TypeError                                   (* len(None) *)
@@ -330,6 +333,20 @@ Section Formats.
   Definition pq_surviving_names : list string := filter pq_survives pq_all_names.
   Definition pq_lost_names : list string := filter (fun n => negb (pq_survives n)) pq_all_names.
   Definition pq_tables_ok : bool := forallb pq_survives pq_all_names.
+  (* every accepted kind has one target by gate.py's arity table or by the writer's own guard, and every kind
+     of the two-Qureg shape is guarded to exactly one control: nothing a line cannot carry gets written *)
+  Definition pq_guards_ok : bool :=
+    forallb (fun n => (arity_eqb (arity T n) (Some 1%nat) || smem n (pq_w_single_target P))
+                      && match find_shape n (pq_wbranches P) with
+                         | Some PQS2 => smem n (pq_w_single_ctrl P)
+                         | _ => true
+                         end) pq_all_names.
+  (* the only gate-level condition left: the parameter is what the kind's line shape prints *)
+  Definition pq_param_ok (g : pgate) : Prop :=
+    match find_shape (pname g) (pq_wbranches P) with
+    | Some PQS1p => exists a, pparam g = PNum a
+    | _ => pparam g = PNone
+    end.
 
   (* what a ProjectQ line can carry of a gate: one target (the writers print target[0] only), and *)
   Definition pq_expressible (g : pgate) : Prop :=
